@@ -32,6 +32,38 @@ def obligations():
                 regs[name] = (e, node.args[0].value)
     subs = []  # (regex name, replacement, source var, target var)
     stored = False
+    # conditional shapes: every path through if/elif/else must apply a chain that removes CR and NUL
+    if any(isinstance(st, ast.If) for st in fn.body):
+        def paths(stmts):
+            out = [[]]
+            for st in stmts:
+                if isinstance(st, ast.If):
+                    a, b = paths(st.body), paths(st.orelse)
+                    out = [p + q for p in out for q in (a + b)]
+                else:
+                    out = [p + [st] for p in out]
+            return out
+
+        for k, path in enumerate(paths(fn.body)):
+            names = []
+            for st in path:
+                for n in ast.walk(st):
+                    if isinstance(n, ast.Call) and isinstance(n.func, ast.Attribute) and n.func.attr == "sub" and isinstance(n.func.value, ast.Name):
+                        names.append(n.func.value.id)
+            ok = {"CR": False, "NUL": False}
+            for nm in names:
+                r = regs.get(nm)
+                if r is None or isinstance(r[0], Exception):
+                    continue
+                for label, ch in (("CR", "\r"), ("NUL", "\0")):
+                    sv = z3.Solver()
+                    sv.add(z3.InRe(z3.StringVal(ch), r[0][0]))
+                    if sv.check() == z3.sat:
+                        ok[label] = True
+            for label in ok:
+                obs.append({"oid": f"{canon}/LANG/path#{k}-removes-{label}", "verdict": "discharged" if ok[label] else "failed", "func": canon,
+                            "info": f"path {k} through the conditionals applies substitutions {names}" + ("" if ok[label] else f": none of them matches {label}, so a {label} survives on this path (the conditions are not mutually exclusive facts about the input)")})
+        return obs
     for st in fn.body:
         if isinstance(st, ast.Assign) and isinstance(st.value, ast.Call) and isinstance(st.value.func, ast.Attribute) and st.value.func.attr == "sub" and isinstance(st.value.func.value, ast.Name):
             c = st.value
